@@ -256,6 +256,7 @@ closed:
 		if r.Done != nil {
 			r.Done <- r
 		}
+		verifCPoint("crecv_fanned", clnt, r)
 	}
 
 	clnts.Lock()
